@@ -48,12 +48,12 @@ pub fn run(case: &ProbeCase, memo_models_valid: bool) -> Result<Value, String> {
             let (mut sh, mut listener) = match hangup_after {
                 Some(_) => {
                     let (s, r) = crossbeam_channel::unbounded::<adf_bdd::datatypes::BddNode>();
-                    (Shadow::with_bdd(k, adf_bdd::obdd::Bdd::with_sender(s)), Some(r))
+                    (Shadow::with_bdd(k, adf_bdd::obdd::Bdd::with_sender(s)).with_spread(prog.spread), Some(r))
                 }
-                None => (Shadow::new(k), None),
+                None => (Shadow::new(k).with_spread(prog.spread), None),
             };
             #[cfg(not(feature = "frontend"))]
-            let mut sh = Shadow::new(k);
+            let mut sh = Shadow::new(k).with_spread(prog.spread);
             let _ = hangup_after;
             let mut steps = Vec::new();
             for (i, op) in prog.ops.iter().enumerate() {
@@ -84,7 +84,7 @@ pub fn run(case: &ProbeCase, memo_models_valid: bool) -> Result<Value, String> {
             let gv = (*goal_var as usize) % (k + 1);
             let mut per_handle = Vec::new();
             for (h, t, _) in &sh.issued {
-                queries::check_queries(&sh.bdd, k, *h, t, &termlist, gv, memo_models_valid)?;
+                queries::check_queries_mapped(&sh.bdd, k, *h, t, &termlist, gv, memo_models_valid, &sh.vm)?;
                 let p = sh.bdd.paths(*h, false);
                 let m = sh.bdd.models(*h, false);
                 let mut deps: Vec<usize> = sh.bdd.var_dependencies(*h).into_iter().map(|v| v.value()).collect();
@@ -93,7 +93,7 @@ pub fn run(case: &ProbeCase, memo_models_valid: bool) -> Result<Value, String> {
                 for goal in [true, false] {
                     let mut c: Vec<(Vec<usize>, Vec<usize>)> = sh
                         .bdd
-                        .interpretations(*h, goal, Var(gv), &[], &[])
+                        .interpretations(*h, goal, Var(if gv < k { sh.vm[gv] } else { sh.vm[k - 1] + 1 }), &[], &[])
                         .into_iter()
                         .map(|(n, p)| {
                             let mut n: Vec<usize> = n.into_iter().map(|v| v.value()).collect();
